@@ -24,30 +24,50 @@ macro_rules! t {
 }
 
 #[inline(never)]
-fn f2(a: i64) -> i64 {
-    let b = t!(a + 1);
-    return t!(b * 2);
+fn even(n: i64) -> i64 {
+    if t!(n == 0) {
+        return t!(1);
+    }
+    let r = t!(odd(n - 1));
+    return t!(r);
 }
 
 #[inline(never)]
-fn f1(d: i64) -> i64 {
-    let mut acc = t!(d);
-    if t!(d > 0) {
-        acc = t!(f1(d - 1));
+fn odd(n: i64) -> i64 {
+    if t!(n == 0) {
+        return t!(0);
     }
-    let r = t!(f2(acc));
-    return t!(acc + r);
+    let r = t!(even(n - 1));
+    return t!(r);
+}
+
+#[inline(never)]
+fn down(n: i64, acc: i64) -> i64 {
+    if t!(n == 0) {
+        return t!(acc);
+    }
+    let a = t!(acc + n);
+    let r = t!(down(n - 1, a));
+    return t!(r);
+}
+
+#[inline(never)]
+fn fib(n: i64) -> i64 {
+    if t!(n < 2) {
+        return t!(n);
+    }
+    let a = t!(fib(n - 1));
+    let b = t!(fib(n - 2));
+    return t!(a + b);
 }
 
 fn main() {
-    let mut s = t!(0);
-    let mut i = t!(0);
-    while t!(i < 3) {
-        s = t!(s + f1(i));
-        i = t!(i + 1);
-    }
+    let e = t!(even(5));
+    let o = t!(odd(4));
+    let d = t!(down(12, 0));
+    let f = t!(fib(4));
     t!();
-    report(s);
+    report(e + o * 10 + d + f);
 }
 
 #[inline(never)]
@@ -68,5 +88,5 @@ fn gate2() {
 fn report(s: i64) {
     gate2();
     println!("TICK={} S={}", unsafe { TICK }, s);
-    std::process::exit((s % 100) as i32);
+    std::process::exit((s.rem_euclid(100)) as i32);
 }
